@@ -5,7 +5,7 @@ from rules import grd as G
 from rules import fmt as F
 from rules import extra as X
 from rules import sep as SEP
-from rules.core import guarded, callee_name, last_seg, strip_generics
+from rules.core import guarded, guarded_soft, callee_name, last_seg, strip_generics
 
 INFO = {
     "explanation": "Every call to an unsafe function in lexical-util's iterators, lexical-parse-integer and lexical-parse-float is classified: discharged by a guard that dominates it on the same object with no cursor/length mutation in between (step_unchecked, step_by_unchecked(N), peek_many_unchecked::<V>, set_cursor with its three index idioms, the StackVec/ReverseView primitives), forwarded from inside an unsafe fn, or a named contract/assumed site; anything else is a violation. Writers of Bytes.index and StackVec.length are inventoried; every explicit panic site reachable from a parse entry point is compared with a reasoned table; the format is validated before every back-end call.",
@@ -199,15 +199,15 @@ def run(col, configs, tier):
         guarded(col, inventory, facts)
         guarded(col, rule_index_writers, facts)
         guarded(col, rule_panic_inventory, facts)
-        guarded(col, X.rule_bigfloat_bits, facts)
-        guarded(col, X.rule_binary_factor, facts)
-        guarded(col, X.rule_slice_length_pairing, facts)
-        guarded(col, X.rule_power_index_guards, facts)
-        guarded(col, X.rule_unchecked_window, facts)
-        guarded(col, X.rule_take_n_window_size, facts)
-        guarded(col, X.rule_lossy_marker, facts)
-        guarded(col, X.rule_lossy_independent_shortcuts, facts)
+        guarded_soft(col, X.rule_bigfloat_bits, facts)
+        guarded_soft(col, X.rule_binary_factor, facts)
+        guarded_soft(col, X.rule_slice_length_pairing, facts)
+        guarded_soft(col, X.rule_power_index_guards, facts)
+        guarded_soft(col, X.rule_unchecked_window, facts)
+        guarded_soft(col, X.rule_take_n_window_size, facts)
+        guarded_soft(col, X.rule_lossy_marker, facts)
+        guarded_soft(col, X.rule_lossy_independent_shortcuts, facts)
         # the `_ => unreachable!()` arm of every peek dispatch is unreachable only if all 16 flag combinations are arms
         guarded(col, SEP.rule_peek_dispatch, facts)
-        guarded(col, X.rule_exponent_bound, facts)
+        guarded_soft(col, X.rule_exponent_bound, facts)
         guarded(col, F.rule_entry_validation, facts)
